@@ -485,6 +485,17 @@ pub fn run(rep: &mut Report) {
             }
         }
     }
+    // the connection-level stimulus seeds as well (they include packets the abstract space with one deviation does
+    // not: a once-only property repeated 256 / 257 times, special string contents)
+    for ver in [Ver::V4, Ver::V5] {
+        for w in [2usize, 4] {
+            for (_l, ap) in crate::stim::seeds(ver, w) {
+                if let Framed::Frame { ty, flags, body, .. } = rc::frame_one(&rc::encode(&ap, w)) {
+                    seeds.push((ver, w, ty, flags, body));
+                }
+            }
+        }
+    }
     let n_seeds = seeds.len();
     let parts: Vec<Acc> = crate::util::par_map(seeds.len(), |i| {
         let (ver, w, ty, flags, body) = &seeds[i];
